@@ -56,6 +56,19 @@ pub enum SimPkt {
     Disconnect,
     /// A packet the broker ignores (CONNECT inside a session, SUBACK, ...).
     Ignored(&'static str),
+    /// An acknowledgement that is certainly unsolicited or out of order
+    /// (kind 0 PUBACK, 1 PUBREC, 2 PUBCOMP): the broker must close.
+    BadAck(u8, u16),
+    /// MQTT 5 publish with a topic alias and/or subscription identifiers.
+    PublishV5 {
+        topic: Vec<u8>,
+        payload: Vec<u8>,
+        qos: u8,
+        pkid: u16,
+        retain: bool,
+        alias: Option<u16>,
+        sub_ids: bool,
+    },
 }
 
 #[derive(Clone, Debug)]
@@ -150,6 +163,8 @@ pub struct Conn {
     pub pubcomps_accepted: u32,
     /// Possible assignments of delivered forwards to subscriptions: each
     /// vector holds, per subscription, the next expected log position.
+    /// Topic aliases this client established.
+    pub aliases: HashMap<u16, String>,
     pub posvecs: Vec<PosVec>,
     /// Attribution was given up for this connection (sound, counted).
     pub unchecked: bool,
@@ -383,6 +398,7 @@ impl Spec {
             close_reason: None,
             acks_accepted: 0,
             pubcomps_accepted: 0,
+            aliases: HashMap::new(),
             posvecs: Vec::new(),
             unchecked: false,
         });
@@ -480,6 +496,65 @@ impl Spec {
             if !self.conns[c].alive {
                 break;
             }
+            // MQTT 5 publish: resolve the alias (or close) and continue as a plain publish
+            let resolved;
+            let p = if let SimPkt::PublishV5 {
+                topic,
+                payload,
+                qos,
+                pkid,
+                retain,
+                alias,
+                sub_ids,
+            } = p
+            {
+                // QoS>0: the ack is registered before the publish is judged
+                let mut close: Option<&'static str> = None;
+                let mut t = topic.clone();
+                if *sub_ids {
+                    close = Some("publish_with_subscription_identifier");
+                } else if let Some(a) = alias {
+                    if *a == 0 || *a > 4096 {
+                        close = Some("topic_alias_invalid");
+                    } else if topic.is_empty() {
+                        match self.conns[c].aliases.get(a) {
+                            Some(known) => t = known.clone().into_bytes(),
+                            None => close = Some("topic_alias_unknown"),
+                        }
+                    } else if let Ok(ts) = std::str::from_utf8(topic) {
+                        self.conns[c].aliases.insert(*a, ts.to_string());
+                    }
+                }
+                if let Some(r) = close {
+                    if *qos == 2 {
+                        // judged when released: model as an invalid recorded publish
+                        self.conns[c].exp_acks.push_back(ExpAck::PubRec(*pkid));
+                        self.conns[c].qos2_in.push_back(Accepted {
+                            topic: String::from("\u{0}invalid"),
+                            payload: payload.clone(),
+                            retain: *retain,
+                            from_conn: c,
+                        });
+                        continue;
+                    }
+                    if *qos == 1 {
+                        self.conns[c].exp_acks.push_back(ExpAck::PubAck(*pkid));
+                    }
+                    self.close(c, r);
+                    effects.push(Effect::Close(c, r));
+                    break;
+                }
+                resolved = SimPkt::Publish {
+                    topic: t,
+                    payload: payload.clone(),
+                    qos: *qos,
+                    pkid: *pkid,
+                    retain: *retain,
+                };
+                &resolved
+            } else {
+                p
+            };
             match p {
                 SimPkt::Publish {
                     topic,
@@ -678,6 +753,12 @@ impl Spec {
                     break;
                 }
                 SimPkt::Ignored(_) => {}
+                SimPkt::BadAck(..) => {
+                    self.close(c, "unsolicited_ack");
+                    effects.push(Effect::Close(c, "unsolicited_ack"));
+                    break;
+                }
+                SimPkt::PublishV5 { .. } => unreachable!("resolved above"),
             }
         }
         effects
